@@ -1,7 +1,7 @@
-\* regression: seeded defect always_unwind must be found (must be VIOLATED)
+\* raw requests through joint_allocator with releases in any order (4 requests, block <= 10 units): all clauses of C11 hold
 SPECIFICATION Spec
 CONSTANTS S = 4
-          MaxAdd = 8
+          MaxAdd = 6
           Bases = {8}
           Aligns = {1, 2}
           MaxSize = 3
@@ -9,6 +9,6 @@ CONSTANTS S = 4
           NMembers = 0
           CloneBases = "same"
           EmptyRange = FALSE
-          Bug = "always_unwind"
+          Bug = "none"
 INVARIANTS PieceAfterObjectInsideBlock PiecesDisjoint PieceAligned OverflowThrowsFixedMemory ObjectDestroyedOnce BlockReleasedOnceSameSizeAlign CloneIndependent CloneSucceeds
 CHECK_DEADLOCK FALSE
